@@ -171,6 +171,44 @@ def canon_conds(program, conds):
     return [_norm_cmp(c) for c in out]
 
 
+_PRED_MEMO = {}
+
+
+def _expand_predicate(program, t, depth=0):
+    """For a call to a workspace function whose whole body is one straight-line boolean expression of its parameters (at most a
+    couple of std calls, no branches, no other workspace calls): that expression with the arguments substituted; else None."""
+    if program is None or t[0] != "call" or depth > 2:
+        return None
+    b = program.bodies.get(t[1])
+    if b is None or b.kind not in ("Fn", "AssocFn") or b.local_ty(0) != "bool" or len(b.blocks) > 6:
+        return None
+    if b.impl_trait or b.raw.get("trait_default_of") or b.from_macro:
+        return None          # trait methods (derived PartialEq::eq ..) keep their meaning as calls
+    key = t[1]
+    if key not in _PRED_MEMO:
+        ret = None
+        ok = all(blk["t"]["k"] in ("call", "return", "goto", "drop", "resume", "unreachable", "abort") for blk in b.blocks) and \
+            not any(blk["t"]["k"] == "call" and (blk["t"].get("res") or blk["t"].get("decl") or "").startswith("huginn_net") for blk in b.blocks)
+        if ok:
+            S = T.Slicer(b, program)
+            defs = [(bi, bj) for (bi, bj, full) in S.defs().get(0, []) if full]
+            if len(defs) == 1:
+                ret = S.def_term(0, defs[0][0], defs[0][1], 0)
+                if T.contains(ret, lambda x: x[0] in ("phi", "loopvar", "unknown", "deep")):
+                    ret = None
+        _PRED_MEMO[key] = ret
+    ret = _PRED_MEMO[key]
+    if ret is None:
+        return None
+    args = t[2]
+
+    def sub(n):
+        if n[0] == "param" and n[1] < len(args):
+            return args[n[1]]
+        return None
+    return T.rebuild(ret, sub)
+
+
 def canon_cond(program, atom, label, blk=None):
     res = []
     if atom[0] == "variant":
@@ -210,6 +248,13 @@ def canon_cond(program, atom, label, blk=None):
     if not isinstance(pol, bool):
         return [("bool", atom, pol, blk)]
     t = atom
+    # a test through a one-line predicate method (`self.signature_parsed()` for `self.signature.is_some()`) is the test it wraps
+    exp = _expand_predicate(program, t)
+    if exp is not None:
+        neg = False
+        while exp[0] == "unop" and exp[1] == "Not":
+            exp, neg = exp[2], not neg
+        return canon_cond(program, exp, pol != neg, blk)
     if t[0] == "binop" and t[1] in ("Lt", "Le", "Gt", "Ge", "Eq", "Ne"):
         res.append(("cmp", t[1], t[2], t[3], pol, blk))
         return res
